@@ -56,6 +56,12 @@ def _q4a(r00, r01, r02, r10, r11, r12, r20, r21, r22, e0, e1, e2):
     with q.notrace():                             # everything is concrete from here on for this path
         world = GW.world_with_files(nf, present)
         tl, by = GW.make_targets(nt, nf, conc, order)
+        pad = q.SHARD.get("pad", 0)
+        if pad:
+            # an unrelated healthy pipeline in the same workflow: the verdict on the symbolic part must not depend on it
+            world.add("/vfs/p/padsrc", 5, "pad source")
+            chain = [Target(name="Pad%d" % k, inputs=["padsrc" if k == 0 else "pad%d" % (k - 1)], outputs=["pad%d" % k], options={}, working_dir="/vfs/p", spec="pad") for k in range(abs(pad))]
+            tl = (chain + tl) if pad < 0 else (tl + chain)
     vfs.install(world)
     try:
         err = None
@@ -87,7 +93,7 @@ def q4a(r00: int, r01: int, r02: int, r10: int, r11: int, r12: int, r20: int, r2
 
 
 # ---------------------------------------------------------------- Q4b no side effect on rejection
-ILL = ["multi", "unres", "cycle2", "self", "cycle3-unreachable"]
+ILL = ["multi", "unres", "cycle2", "self", "cycle3-unreachable", "self+chain", "cycle2+chain"]
 
 
 def ill_world(kind, be):
@@ -101,12 +107,18 @@ def ill_world(kind, be):
     elif kind == "cycle2":
         w.target("P", ["q.out"], ["p.out"])
         w.target("Q", ["p.out"], ["q.out"])
-    elif kind == "self":
+    elif kind in ("self", "self+chain"):
         w.target("P", ["state"], ["./state"])
+    elif kind == "cycle2+chain":
+        w.target("P", ["q.out"], ["p.out"])
+        w.target("Q", ["p.out"], ["q.out"])
     else:
         w.target("X", ["z.out"], ["x.out"])
         w.target("Y", ["x.out"], ["y.out"])
         w.target("Z", ["y.out"], ["z.out"])
+    if kind.endswith("+chain"):
+        for k in range(4):
+            w.target("L%d" % k, ["src" if k == 0 else "l%d" % (k - 1)], ["l%d" % k])
     w.file("src", 5, "S")
     w.file("ok.out", 3, "stale output")
     w.file("p.out", 4, "P")
@@ -279,13 +291,16 @@ def _rows(nf, vals=(0, 1, 2, 3)):
 
 QUERIES = [
     {"name": "Q4a", "fn": q4a,
-     "shards": {"quick": [{"nt": 3, "nf": 2, "order": [0, 1, 2], "fix_t0": r} for r in _rows(2)] + [{"nt": 3, "nf": 2, "order": [2, 0, 1], "fix_t0": r} for r in _rows(2) if r[0] >= 2],
+     "shards": {"quick": [{"nt": 3, "nf": 2, "order": [0, 1, 2], "fix_t0": r} for r in _rows(2)] + [{"nt": 3, "nf": 2, "order": [2, 0, 1], "fix_t0": r} for r in _rows(2) if r[0] >= 2]
+                         + [{"nt": 2, "nf": 2, "order": [0, 1], "pad": 3}, {"nt": 2, "nf": 2, "order": [1, 0], "pad": -4}],
                 "thorough": [{"nt": 3, "nf": 3, "order": [0, 1, 2], "fix_t0": r, "f2max": 3} for r in _rows(3) if r[2] <= 2]
-                            + [{"nt": 3, "nf": 3, "order": [2, 1, 0], "fix_t0": r, "f2max": 3} for r in _rows(3) if r[2] <= 2 and r[0] >= 2]},
+                            + [{"nt": 3, "nf": 3, "order": [2, 1, 0], "fix_t0": r, "f2max": 3} for r in _rows(3) if r[2] <= 2 and r[0] >= 2]
+                            + [{"nt": 3, "nf": 2, "order": [0, 1, 2], "fix_t0": r, "pad": pd} for r in _rows(2) for pd in (3, -5)]},
      "timeout": {"quick": 600, "thorough": 2400},
-     "bound": "role of every (target, file) in {none, input, output, both} and existence of every file symbolic; quick: 3 targets x 2 files, definition order 0,1,2 (all) and 2,0,1 (first target producing/self-looping on file 0); thorough: 3 x 3 (third file never both input and output of one target), definition order 0,1,2 and, for producing first targets, 2,1,0"},
+     "bound": "role of every (target, file) in {none, input, output, both} and existence of every file symbolic; quick: 3 targets x 2 files, definition order 0,1,2 (all) and 2,0,1 (first target producing/self-looping on file 0); thorough: 3 x 3 (third file never both input and output of one target), definition order 0,1,2 and, for producing first targets, 2,1,0; "
+              "extra shards put an unrelated healthy chain of 3-5 targets into the same workflow (defined before or after): 2 targets x 2 files (quick), 3 x 2 (thorough)"},
     {"name": "Q4b", "fn": q4b, "shards": {"quick": [{"be": "slurm"}], "thorough": [{"be": b} for b in ("slurm", "sge", "lsf", "local")]}, "timeout": {"quick": 900, "thorough": 1200},
-     "bound": "5 ill-formed workflows (two producers across spellings, missing source, 2-cycle, self-loop, 3-cycle not reachable from the first target) next to a healthy target x "
+     "bound": "7 ill-formed workflows (two producers across spellings, missing source, 2-cycle, self-loop, 3-cycle not reachable from the first target, self-loop / 2-cycle beside a healthy chain of 4) next to a healthy target x "
               "{run, run --dry-run, status, clean --all -f, touch, cancel -f, info} x a tracked running job present or not"},
     {"name": "Q4c", "fn": q4c, "e2e": e2e_q4c, "shards": [{"maxn": 40}], "timeout": 900, "skip_if_excluded": "C04-recursion-depth",
      "bound": "chain length 1..40 symbolic, both definition orders, recursion budget scaled to 80 frames; Graph.from_targets, get_status_map, submit_workflow, Graph.dfs"},
